@@ -688,6 +688,8 @@ def possibly_unbound(func):
                         break
                     if m.id in defs:
                         continue
+                    if nm in _used_names(m, {nm}):
+                        continue        # an earlier read on this path would already have raised: report that one
                     key = (m.id, kn)
                     if key in prev:
                         continue
